@@ -245,7 +245,8 @@ class DI:
 			raise TypeError(f'Merging not allowed. not related. self: {self.__class__}, other: {other.__class__}')
 
 		di = self._clone()
-		di.__instances = {**di.__instances, **other.__instances}
+		# XXX マージ対象で上書きされるシンボルは、上書き前のインスタンスを引き継がない
+		di.__instances = {**{symbol: instance for symbol, instance in di.__instances.items() if symbol not in other.__injectors}, **other.__instances}
 		di.__injectors = {**di.__injectors, **other.__injectors}
 		return di
 
